@@ -31,7 +31,25 @@ for d in sorted(os.listdir(os.path.join(V, "seeded"))):
     else:
         status = "**missed**"
     rows.append("| %s | %s | %s | %s |" % (d, m.get("property"), status, (hist or what).replace("|", "/")[:260]))
-table = "| seed | property | result | what it needed / what was added |\n|---|---|---|---|\n" + "\n".join(rows)
+rounds = {}
+for r in rows:
+    name = r.split("|")[1].strip()
+    m2 = re.search(r"-r(\d)seed", name)
+    rd = int(m2.group(1)) if m2 else 1
+    c = rounds.setdefault(rd, [0, 0, 0, 0, 0])
+    if "not valid" in r:
+        c[4] += 1
+    elif "another property" in r:
+        c[1] += 1
+    elif "after strengthening" in r:
+        c[2] += 1
+    elif "**missed**" in r:
+        c[3] += 1
+    else:
+        c[0] += 1
+summary = "| round | seeds | caught as built | caught as built by another property's check | caught after strengthening | still missed | invalidated by a later fix |\n|---|---|---|---|---|---|---|\n" + \
+    "\n".join("| %d | %d | %d | %d | %d | %d | %d |" % (rd, sum(c), c[0], c[1], c[2], c[3], c[4]) for rd, c in sorted(rounds.items()))
+table = summary + "\n\n| seed | property | result | what it needed / what was added |\n|---|---|---|---|\n" + "\n".join(rows)
 p = os.path.join(V, "DESIGN.md")
 s = open(p).read()
 block = "<!-- SEEDED-BEGIN -->\n" + table + "\n<!-- SEEDED-END -->"
